@@ -43,9 +43,40 @@ def mixed_formats(rng):
     return {"tree": tree, "steps": steps, "rounds": [rnd]}
 
 
+def late_dr(rng):
+    """the renamed tree is first sealed WITHOUT -dr (old names missing, new names recorded as new files, exit 10); only the
+    following run uses -dr, on the untouched tree: the former paths are still recorded as previous paths and nothing is missing"""
+    distinct = set()
+    tree = {"keep.bin": {"f": gen.gen_content(rng, distinct) or "0c0c"}, "D": {"d": {}}}
+    for k in range(rng.choice([1, 2, 3])):
+        tree["D" if k % 2 else "old%d.bin" % k] = tree["D"] if k % 2 else {"f": gen.gen_content(rng, distinct) or "a%d77" % k}
+        if k % 2:
+            tree["D"]["d"]["in%d.bin" % k] = {"f": gen.gen_content(rng, distinct) or "d%d88" % k}
+    cur = copy.deepcopy(tree)
+    steps = [{"op": "create", "fmts": gen.gen_fmts(rng)}]
+    ren = {}
+    for old in sorted(f for f in gen.all_files(cur) if f != "keep.bin"):
+        new = ("moved/" if rng.random() < 0.5 else "") + "new_" + old.replace("/", "_")
+        st = {"op": "rename", "path": old, "to": new}
+        steps.append(st)
+        cur = world.tree_apply(cur, st)
+        ren[old] = new
+    steps.append({"op": "create", "fmts": gen.gen_fmts(rng)})                     # without -dr: exit 10
+    rnd = {"map": ren, "dr": True, "create": len(steps)}
+    steps.append({"op": "create", "fmts": gen.gen_fmts(rng), "dr": True})
+    acc = []
+    for op in ["verify", "diff", "create"]:
+        acc.append(len(steps))
+        steps.append({"op": op, **({"fmts": gen.gen_fmts(rng)} if op == "create" else {})})
+    rnd["accept"] = acc
+    return {"tree": tree, "steps": steps, "rounds": [rnd]}
+
+
 def scenario(rng, i):
     if i % 6 == 4:
         return mixed_formats(rng)
+    if i % 8 == 7:
+        return late_dr(rng)
     distinct = set()
     tree = gen.gen_tree(rng, max_entries=12, max_depth=3, simple=(i % 2 == 0), distinct=distinct, ds_store=False)
     while len(gen.all_files(tree)) < 3:
